@@ -41,6 +41,19 @@ fn main() {
             match r { Err(e) => Some(format!("Err({e}) but the 1043498th Tuesday after -9999-01-01 is 9999-12-28")), Ok(_) => None }
         });
     }
+    if on("F3") {
+        run("F3", || {
+            use jiff::ToSpan;
+            let t = jiff::civil::time(0, 0, 0, 0).wrapping_add(2_562_048.hours());
+            if t != jiff::civil::time(0, 0, 0, 0) { Some(format!("time(0,0,0,0).wrapping_add(2_562_048.hours()) == {t}, exact arithmetic modulo 24h gives 00:00:00")) } else { None }
+        });
+    }
+    if on("F17") {
+        run("F17", || {
+            let r = date(-9999, 1, 1).until((Unit::Month, date(9999, 2, 1)));
+            match r { Err(e) => Some(format!("date(-9999,1,1).until((Unit::Month, date(9999,2,1))) -> Err({e})")), Ok(_) => None }
+        });
+    }
     if on("F16") {
         run("F16", || {
             let tz = TimeZone::posix("AAA0BBB,J365/23:30,J1/0").ok()?;
